@@ -5,8 +5,10 @@ package main
 
 import (
 	"bytes"
+	"compress/flate"
 	"encoding/binary"
 	"fmt"
+	"hash/crc32"
 	"runtime"
 	"strconv"
 	"strings"
@@ -34,6 +36,14 @@ var idAlphabet = map[string]int64{
 	"min":    -1 << 63,
 	"server": 0x6123456789abcd01, // a typical server message id (mod 4 == 1)
 	"count":  0x0807060504030201,
+}
+
+// scribble overwrites the bytes a value was decoded from, as a caller that reuses its read buffer
+// does. A decoded value that still refers to the input changes with it.
+func scribble(b []byte) {
+	for i := range b {
+		b[i] = 0xa5 ^ byte(i)
+	}
 }
 
 func payload(pattern string, n int) []byte {
@@ -121,6 +131,10 @@ func evalContainer(w wContainer) kit.Result {
 	if rd.Len() != 0 {
 		return kit.Bad("roundtrip-consumption", "%d bytes left after decoding the container", rd.Len())
 	}
+	scribble(enc)
+	if d := sameMsgs(dec.Messages, want); d != "" {
+		return kit.Bad("value-aliases-input", "producer %s: decoded messages changed when the input buffer was overwritten: %s", w.Producer, d)
+	}
 	return kit.OKo("roundtrip:" + strconv.Itoa(len(want)))
 }
 
@@ -183,7 +197,8 @@ func mutate(in []byte, mut string) []byte {
 
 func evalBytes(w wBytes) kit.Result {
 	in := mutate(baseBytes(w.Kind, w.Base), w.Mut)
-	rd := &bin.Buffer{Buf: append([]byte(nil), in...)}
+	src := append([]byte(nil), in...)
+	rd := &bin.Buffer{Buf: src}
 	switch w.Kind {
 	case "container":
 		want, n, over, st := reftl.ParseContainer(in)
@@ -210,6 +225,10 @@ func evalBytes(w wBytes) kit.Result {
 		if len(in)-rd.Len() != n {
 			return kit.Bad("wrong-consumption", "container %s: consumed %d, encoded length %d", kit.Hex(in), len(in)-rd.Len(), n)
 		}
+		scribble(src)
+		if d := sameMsgs(c.Messages, want); d != "" {
+			return kit.Bad("value-aliases-input", "container %s: decoded messages changed when the input buffer was overwritten: %s", kit.Hex(in), d)
+		}
 		return kit.OKo("value")
 	case "plain":
 		id, data, st := reftl.ParsePlain(in)
@@ -227,6 +246,10 @@ func evalBytes(w wBytes) kit.Result {
 		if u.MessageID != id || !bytes.Equal(u.MessageData, data) {
 			return kit.Bad("wrong-value", "plaintext message %s decoded to id=%d data=%x", kit.Hex(in), u.MessageID, u.MessageData)
 		}
+		scribble(src)
+		if !bytes.Equal(u.MessageData, data) {
+			return kit.Bad("value-aliases-input", "plaintext message %s: decoded data changed when the input buffer was overwritten", kit.Hex(in))
+		}
 		return kit.OKo("value")
 	case "result":
 		var r proto.Result
@@ -242,6 +265,10 @@ func evalBytes(w wBytes) kit.Result {
 		}
 		if r.RequestMessageID != int64(binary.LittleEndian.Uint64(in[4:])) || !bytes.Equal(r.Result, in[12:]) {
 			return kit.Bad("wrong-value", "rpc_result %s decoded to id=%d result=%x", kit.Hex(in), r.RequestMessageID, r.Result)
+		}
+		scribble(src)
+		if !bytes.Equal(r.Result, in[12:]) {
+			return kit.Bad("value-aliases-input", "rpc_result %s: decoded body changed when the input buffer was overwritten", kit.Hex(in))
 		}
 		return kit.OKo("value")
 	case "gzip-frame":
@@ -308,6 +335,7 @@ func evalWrap(w wWrap) kit.Result {
 	var gotID int64
 	var got []byte
 	var err error
+	src := enc.Buf
 	if w.Kind == "result" {
 		var r proto.Result
 		if w.Reuse {
@@ -332,6 +360,10 @@ func evalWrap(w wWrap) kit.Result {
 	if enc.Len() != 0 {
 		return kit.Bad("roundtrip-consumption", "%d bytes left", enc.Len())
 	}
+	scribble(src)
+	if !bytes.Equal(got, body) {
+		return kit.Bad("value-aliases-input", "%s (producer %s, reuse %v): decoded body changed when the input buffer was overwritten", w.Kind, w.Producer, w.Reuse)
+	}
 	return kit.OKo(w.Kind + ":roundtrip")
 }
 
@@ -346,6 +378,86 @@ type wGzip struct {
 	Members  int    `json:"members,omitempty"` // std only: concatenated gzip members (default 1)
 	// Corrupt: "", "magic", "crc", "isize", "trunc:<n>", "trail:<n>"
 	Corrupt string `json:"corrupt,omitempty"`
+	// Member (std only): the gzip member is assembled by hand (RFC 1952) instead of by compress/gzip:
+	// "<header>/<deflate>", header in {plain, text, extra, name, comment, hcrc, all, mtime-os} (the optional
+	// header fields FTEXT, FEXTRA, FNAME, FCOMMENT, FHCRC, all of them, non-zero MTIME/XFL/OS), deflate in
+	// {stored, huffman, fast, best} (compress/flate levels 0, HuffmanOnly, 1, 9).
+	Member string `json:"member,omitempty"`
+}
+
+// handMember builds one RFC 1952 member around a raw deflate stream made by compress/flate.
+func handMember(data []byte, header, deflate string) []byte {
+	level := map[string]int{"stored": flate.NoCompression, "huffman": flate.HuffmanOnly, "fast": flate.BestSpeed, "best": flate.BestCompression}
+	lv, ok := level[deflate]
+	if !ok {
+		panic("deflate " + deflate)
+	}
+	var flg byte
+	mtime, xfl, osb := uint32(0), byte(0), byte(255)
+	var extra, name, comment []byte
+	hcrc := false
+	switch header {
+	case "plain":
+	case "text":
+		flg |= 1
+	case "extra":
+		extra = []byte{'A', 'p', 4, 0, 1, 2, 3, 4}
+	case "name":
+		name = []byte("object.tl")
+	case "comment":
+		comment = []byte("packed by the reference encoder")
+	case "hcrc":
+		hcrc = true
+	case "all":
+		flg |= 1
+		extra, name, comment, hcrc = []byte{'A', 'p', 0, 0}, []byte("n"), []byte("c"), true
+	case "mtime-os":
+		mtime, xfl, osb = 1700000000, 2, 3
+	default:
+		panic("header " + header)
+	}
+	if extra != nil {
+		flg |= 4
+	}
+	if name != nil {
+		flg |= 8
+	}
+	if comment != nil {
+		flg |= 16
+	}
+	if hcrc {
+		flg |= 2
+	}
+	out := []byte{0x1f, 0x8b, 8, flg}
+	out = binary.LittleEndian.AppendUint32(out, mtime)
+	out = append(out, xfl, osb)
+	if extra != nil {
+		out = binary.LittleEndian.AppendUint16(out, uint16(len(extra)))
+		out = append(out, extra...)
+	}
+	if name != nil {
+		out = append(append(out, name...), 0)
+	}
+	if comment != nil {
+		out = append(append(out, comment...), 0)
+	}
+	if hcrc {
+		out = binary.LittleEndian.AppendUint16(out, uint16(crc32.ChecksumIEEE(out)))
+	}
+	var body bytes.Buffer
+	fw, err := flate.NewWriter(&body, lv)
+	if err != nil {
+		panic(err)
+	}
+	if _, err := fw.Write(data); err != nil {
+		panic(err)
+	}
+	if err := fw.Close(); err != nil {
+		panic(err)
+	}
+	out = append(out, body.Bytes()...)
+	out = binary.LittleEndian.AppendUint32(out, crc32.ChecksumIEEE(data))
+	return binary.LittleEndian.AppendUint32(out, uint32(len(data)))
 }
 
 var (
@@ -429,6 +541,14 @@ func evalGzip(w wGzip) kit.Result {
 			return kit.Bad("encode-error", "GZIP.Encode of %d bytes: %v", w.Size, err)
 		}
 		frame = b.Buf
+	} else if w.Member != "" {
+		hd, df, _ := strings.Cut(w.Member, "/")
+		one := handMember(payload(w.Pattern, w.Size), hd, df)
+		// the hand-made member must be a gzip stream for the reference reader, else it proves nothing
+		if back, err := reftl.Gunzip(one, w.Size); err != nil || !bytes.Equal(back, payload(w.Pattern, w.Size)) {
+			return kit.Result{Trivial: true, Outcome: "MEMBER-NOT-GZIP"}
+		}
+		frame = reftl.GzipPacked(one)
 	} else {
 		one := stdStream(w.Size, w.Pattern, w.Level)
 		var s []byte
@@ -499,12 +619,44 @@ func evalGzip(w wGzip) kit.Result {
 	if rd.Len() != 0 {
 		return kit.Bad("roundtrip-consumption", "%d bytes left", rd.Len())
 	}
+	scribble(frame)
+	if !bytes.Equal(g.Data, want) {
+		return kit.Bad("value-aliases-input", "gzip-packed payload of %d bytes (producer %s): decoded data changed when the input buffer was overwritten", total, w.Producer)
+	}
+	if w.Member != "" {
+		return kit.OKo(lbl + ":value:hand-made-member")
+	}
 	return kit.OKo(lbl + ":value")
 }
 
-// wHistory: a sequence of decodes sharing the package-level reader pool.
+// wHistory: a sequence of decodes and encodes sharing the package-level reader / writer / buffer pools.
 type wHistory struct {
-	Ops []string `json:"ops"` // valid-a | valid-b | bomb | badhdr | trunc | badcrc
+	// Ops: decodes valid-a | valid-b | bomb | badhdr | trunc | badcrc; encodes (proto.GZIP.Encode) enc-a | enc-b | enc-empty
+	Ops []string `json:"ops"`
+}
+
+func historyPayload(op string) []byte {
+	switch op {
+	case "enc-a":
+		return kit.Pattern("count", 3000)
+	case "enc-b":
+		return kit.Pattern("stream:b", 70000)
+	case "enc-empty":
+		return []byte{}
+	}
+	panic("op " + op)
+}
+
+// unpack is the reference reading of a gzip_packed frame: id, TL string, compress/gzip.
+func unpack(frame []byte) ([]byte, error) {
+	if len(frame) < 4 || binary.LittleEndian.Uint32(frame) != reftl.IDGzipPacked {
+		return nil, fmt.Errorf("no gzip_packed id")
+	}
+	s, n, _, st := reftl.DecString(frame[4:])
+	if st != reftl.OK || 4+n != len(frame) {
+		return nil, fmt.Errorf("TL string %v, %d of %d bytes", st, 4+n, len(frame))
+	}
+	return reftl.Gunzip(s, gzipLimit)
 }
 
 func historyInput(op string) (frame []byte, want []byte, mustFail bool) {
@@ -531,10 +683,58 @@ func evalHistory(w wHistory) kit.Result {
 	// two collections empty sync.Pool (victim cache included): every history starts from an empty reader pool
 	runtime.GC()
 	runtime.GC()
+	// values handed out by earlier steps stay with their callers: they must not change afterwards
+	type kept struct {
+		step       int
+		what       string
+		got, want  []byte
+		isEncoding bool
+	}
+	var held []kept
+	recheck := func(now int) *kit.Result {
+		for _, k := range held {
+			if k.isEncoding {
+				back, err := unpack(k.got)
+				if err != nil || !bytes.Equal(back, k.want) {
+					r := kit.Bad("earlier-encoding-changed", "the frame produced by step %d (%s) no longer unpacks to its payload after step %d (%s) (err=%v)", k.step, k.what, now, w.Ops[now], err)
+					return &r
+				}
+			} else if !bytes.Equal(k.got, k.want) {
+				r := kit.Bad("earlier-output-changed", "the data decoded by step %d (%s) changed during step %d (%s)", k.step, k.what, now, w.Ops[now])
+				return &r
+			}
+		}
+		return nil
+	}
 	for i, op := range w.Ops {
+		if strings.HasPrefix(op, "enc-") {
+			data := historyPayload(op)
+			var b bin.Buffer
+			if err := (proto.GZIP{Data: append([]byte(nil), data...)}).Encode(&b); err != nil {
+				return kit.Bad("encode-error-after-history", "step %d (%s) after %v: %v", i, op, w.Ops[:i], err)
+			}
+			back, err := unpack(b.Buf)
+			if err != nil {
+				return kit.Bad("encoding-invalid-after-history", "step %d (%s) after %v: the frame is not a gzip_packed object for the reference reader: %v", i, op, w.Ops[:i], err)
+			}
+			if !bytes.Equal(back, data) {
+				return kit.Bad("encoding-wrong-after-history", "step %d (%s) after %v: the frame unpacks to %d bytes that are not the %d-byte payload", i, op, w.Ops[:i], len(back), len(data))
+			}
+			var g proto.GZIP
+			if err := g.Decode(&bin.Buffer{Buf: append([]byte(nil), b.Buf...)}); err != nil || !bytes.Equal(g.Data, data) {
+				return kit.Bad("roundtrip-fails-after-history", "step %d (%s) after %v: GZIP.Decode of the frame: err=%v, %d bytes", i, op, w.Ops[:i], err, len(g.Data))
+			}
+			if r := recheck(i); r != nil {
+				return *r
+			}
+			held = append(held, kept{i, op, b.Buf, data, true}, kept{i, op, g.Data, data, false})
+			continue
+		}
 		frame, want, mustFail := historyInput(op)
+		frame = append([]byte(nil), frame...)
 		var g proto.GZIP
 		err := g.Decode(&bin.Buffer{Buf: frame})
+		scribble(frame)
 		if len(g.Data) > gzipLimit {
 			return kit.Bad("produced>10MiB", "step %d (%s): %d bytes produced", i, op, len(g.Data))
 		}
@@ -545,6 +745,12 @@ func evalHistory(w wHistory) kit.Result {
 			return kit.Bad("valid-rejected-after-history", "step %d (%s) after %v rejected: %v", i, op, w.Ops[:i], err)
 		case want != nil && !bytes.Equal(g.Data, want):
 			return kit.Bad("wrong-data-after-history", "step %d (%s) after %v decoded to %d different bytes", i, op, w.Ops[:i], len(g.Data))
+		}
+		if r := recheck(i); r != nil {
+			return *r
+		}
+		if want != nil {
+			held = append(held, kept{i, op, g.Data, want, false})
 		}
 	}
 	return kit.OKo("history:" + strconv.Itoa(len(w.Ops)))
@@ -573,8 +779,11 @@ func main() {
 			"(class negative-count-accepted is kept separate), ok must give the reference value and consumption. " +
 			"Gzip (worker processes, 3 GiB address-space limit): payload sizes {0,1,4,1000,65536,10 MiB-1,10 MiB,10 MiB+1,16 MiB,64 MiB zeros} x patterns {zero,count,incompressible stream} x producer {GZIP.Encode, compress/gzip}; " +
 			"bombs of 256 MiB (thorough: also 1 GiB) of zeros; multi-member streams; corrupted streams (magic, crc, isize, truncation at every byte for a small stream, trailing bytes). " +
+			"hand-assembled RFC 1952 members (checked first against compress/gzip): optional header fields {none, FTEXT, FEXTRA, FNAME, FCOMMENT, FHCRC, all, non-zero MTIME/XFL/OS} x deflate {stored, Huffman-only, level 1, level 9} x sizes {0,1000,65536}, and {none/stored, all/Huffman-only} at 10 MiB-1 and 10 MiB+1. " +
 			"Oracle: < 10 MiB decodes to the payload, > 10 MiB fails, = 10 MiB either; GZIP.Data never exceeds 10 MiB; decoding a bomb >= 256 MiB allocates < 160 MiB in total. " +
-			"Histories of <=3 decodes over {valid-a, valid-b, bomb, bad header, truncated, bad crc} starting from an empty reader pool: a valid input decodes to its payload whatever preceded it. " +
+			"Every successful decode of every family (container, rpc_result, plaintext, gzip) is compared a second time after the input buffer has been overwritten (class value-aliases-input): the decoded value must not refer to the bytes it was read from. " +
+			"Histories of <=3 operations over decodes {valid-a, valid-b, bomb, bad header, truncated, bad crc} and GZIP.Encode of {3000 counting bytes, 70000 incompressible bytes, empty}, starting from empty reader/writer/buffer pools: a valid input decodes to its payload and " +
+			"an encoding unpacks (reference TL string + compress/gzip, and GZIP.Decode) to its payload whatever preceded it, and every value or frame returned by an earlier step is unchanged after each later step. " +
 			"distinct = distinct witnesses.")
 		c.Assume("reference framing (container, rpc_result, gzip_packed, plaintext message) in lib/reftl from the MTProto service-message description; compress/gzip of the standard library as the reference gzip producer")
 		c.Assume("gzip-level corruption (bad crc/isize/truncation/trailing bytes) and multi-member streams: the statement demands only no crash and the 10 MiB bound, both outcomes accepted")
@@ -690,7 +899,19 @@ func main() {
 		} {
 			gj = append(gj, m)
 		}
-		small := stdStream(300, "count", 6)
+		for _, hd := range []string{"plain", "text", "extra", "name", "comment", "hcrc", "all", "mtime-os"} {
+		for _, df := range []string{"stored", "huffman", "fast", "best"} {
+			for _, s := range []int{0, 1000, 65536} {
+				gj = append(gj, wGzip{Producer: "std", Size: s, Pattern: "count", Member: hd + "/" + df})
+			}
+		}
+	}
+	for _, m := range []string{"plain/stored", "all/huffman"} {
+		for _, s := range []int{gzipLimit - 1, gzipLimit + 1} {
+			gj = append(gj, wGzip{Producer: "std", Size: s, Pattern: "zero", Member: m})
+		}
+	}
+	small := stdStream(300, "count", 6)
 		for _, how := range []string{"magic", "crc", "isize", "trail:1", "trail:8", "trail:64"} {
 			gj = append(gj, wGzip{Producer: "std", Size: 300, Pattern: "count", Corrupt: how})
 			gj = append(gj, wGzip{Producer: "std", Size: gzipLimit + 1, Pattern: "zero", Corrupt: how})
@@ -701,7 +922,7 @@ func main() {
 		kit.Parallel(len(gj), workers, func(i int) { gz.Eval(gj[i]) })
 
 		// ---- histories over the pooled reader
-		ops := []string{"valid-a", "valid-b", "bomb", "badhdr", "trunc", "badcrc"}
+		ops := []string{"valid-a", "valid-b", "bomb", "badhdr", "trunc", "badcrc", "enc-a", "enc-b", "enc-empty"}
 		var hj []wHistory
 		for _, a := range ops {
 			hj = append(hj, wHistory{[]string{a}})
